@@ -883,9 +883,19 @@ def register_all(M):
     M.add(r"core::str::from_utf8|std::str::from_utf8", str_from_utf8)
 
     def from_utf8_lossy(c, m, a):
-        s = bytes_to_str(c, as_items(a[0]))
+        items = as_items(a[0])
+        s = bytes_to_str(c, items)
         if s is None:
-            raise Unsupported("from_utf8_lossy on invalid UTF-8")
+            # invalid UTF-8: the result contains U+FFFD replacement characters. Approximation (stated in the evidence):
+            # one U+FFFD per undecodable byte, valid ASCII bytes kept — only meaningful for equality tests against
+            # text that contains no U+FFFD.
+            out = []
+            for b in items:
+                if b.concrete and b.v < 0x80:
+                    out.append(SInt(b.v, "char"))
+                else:
+                    out.append(SInt(0xFFFD, "char"))
+            return Agg("Cow", "Owned", [StringBuf(out)])
         return Agg("Cow", "Borrowed", [s])
     M.add(r"String::from_utf8_lossy", from_utf8_lossy)
 
